@@ -283,6 +283,9 @@ func (g *Gen) Bool(d int) *GT {
 				ch[i] = g.Int(d - 1)
 			}
 		}
+		if r.Intn(6) == 0 { // a list among the operands of an n-ary eq: a type error wherever it stands
+			ch = append(ch, gconst([]int64{1, 2}))
+		}
 		return gop(pick(r, eqNames), ch...)
 	case x < 74:
 		return gop("between", g.Int(d-1), g.Int(d-1), g.Int(d-1))
